@@ -571,11 +571,14 @@ class Model:
                 if not isinstance(n, ast.Call):
                     continue
                 tgt = None
-                if isinstance(n.func, ast.Name) and n.func.id.startswith("_"):
-                    tgt = mi.functions.get(n.func.id)
+                if isinstance(n.func, ast.Name):
+                    if n.func.id.startswith("_"):
+                        tgt = mi.functions.get(n.func.id)
                     if tgt is None:
+                        # a function nested in f is local to it whatever its name
                         for x in ast.walk(f):
-                            if isinstance(x, ast.FunctionDef) and x.name == n.func.id:
+                            if isinstance(x, ast.FunctionDef) and x.name == n.func.id \
+                                    and x is not f:
                                 tgt = x
                 elif isinstance(n.func, ast.Attribute) and n.func.attr.startswith("_") \
                         and not n.func.attr.startswith("__") \
